@@ -1,5 +1,6 @@
 import QuantemModel.Lemmas.AberrationPolar
 import QuantemModel.Lemmas.AberrationAlias
+import QuantemModel.Lemmas.AberrationGrad
 /-!
 C12 — one aberration surface across polar, Cartesian, gradient and fitted forms.
 Only property theorems and non-vacuity examples live here.  Everything named
@@ -124,6 +125,23 @@ theorem cartesian_gradient_rotation (α φ : ℝ) (c : String → ℝ) :
         Real.sin φ * (aberration_surface_polar_gradients α φ c).1
           + Real.cos φ * (aberration_surface_polar_gradients α φ c).2 := by
   constructor <;> simp only [aberration_surface_cartesian_gradients] <;> num_real
+
+/-- **Cartesian gradients = λ·∇_{x,y}χ** (chain rule through the polar coordinates the source itself computes,
+`k = sqrt(kx² + ky²)`, `phi = arctan2(ky, kx)`): at every point (x, y) ≠ (0, 0) — the negative real axis, where
+atan2 jumps, included — the partial derivatives of `(x, y) ↦ aberration_surface(k, phi)` in x and in y are
+`dchi_dx / λ` and `dchi_dy / λ`, i.e. the analytic gradient used for the parallax shifts equals the wavelength
+times the true gradient of the surface. -/
+theorem cartesian_gradient_true (x y lam : ℝ) (c : String → ℝ) (h0 : x * x + y * y ≠ 0) :
+    HasDerivAt (fun t => aberration_surface (√(t * t + y * y)) (Complex.arg ⟨t, y⟩) lam c)
+      ((aberration_surface_cartesian_gradients (√(x * x + y * y)) (Complex.arg ⟨x, y⟩) c).1 / lam) x ∧
+    HasDerivAt (fun t => aberration_surface (√(x * x + t * t)) (Complex.arg ⟨x, t⟩) lam c)
+      ((aberration_surface_cartesian_gradients (√(x * x + y * y)) (Complex.arg ⟨x, y⟩) c).2 / lam) y :=
+  cartesian_gradient_true_lemma x y lam c h0
+
+/-- the surface is 2π-periodic in the azimuth (all m in the table are natural numbers) -/
+theorem surface_periodic (α φ lam : ℝ) (c : String → ℝ) :
+    aberration_surface α (φ + 2 * Real.pi) lam c = aberration_surface α φ lam c := by
+  rw [surface_eq_chi, surface_eq_chi, chi_periodic]
 
 /-! ### the `defocus` alias -/
 
